@@ -267,7 +267,29 @@ pub fn run_c12(a: &Args, rep: &mut Report) {
             n += a.nshards as usize;
         }
         flush(rep, &mut cases);
-        rep.set("size_sweep", format!("straight-line programs of 1..={max_n} instructions (sliced over shards)"));
+        // every residue of the emitted code size modulo the page size: 3a + 4b = 4200 + s
+        let mut sres = a.shard as usize;
+        while sres < 4096 {
+            let total = 4200 + sres;
+            let b = (0..3).find(|b| (total - 4 * b) % 3 == 0).unwrap();
+            let na = (total - 4 * b) / 3;
+            let mut v: Vec<Insn> = Vec::with_capacity(na + b + 2);
+            v.push(Insn::new(MOV64_IMM, 0, 0, 0, 1));
+            for _ in 0..na {
+                v.push(Insn::new(MOV64_REG, 6, 0, 0, 0)); // 3 bytes of x86
+            }
+            for _ in 0..b {
+                v.push(Insn::new(0xc7, 7, 0, 0, 1)); // 4 bytes
+            }
+            v.push(Insn::new(EXIT, 0, 0, 0, 0));
+            cases.push((Case::new(Kind::NoData, encode_prog(&v), "size-residue-sweep"), "size-residue-sweep"));
+            if cases.len() >= 32 {
+                flush(rep, &mut cases);
+            }
+            sres += a.nshards as usize;
+        }
+        flush(rep, &mut cases);
+        rep.set("size_sweep", format!("straight-line programs of 1..={max_n} instructions + one program per residue of the JIT code size modulo 4096 (sliced over shards)"));
     }
     // long programs (JIT up to the limit, Cranelift up to 20k/100k)
     let lens: &[usize] = if q { &[4_000, 33_000, 70_000] } else { &[4_000, 20_000, 33_000, 70_000, 131_100, 500_000, 1_000_000] };
